@@ -81,3 +81,28 @@ def shrink_candidates(case):
             yield " ; ".join(ops[:i] + ops[i + 1:])
     if len(ops) > 1:
         yield " ; ".join(ops[:-1])
+
+
+def t2(chk, wc, tier, seed):
+    """Result.Scope merges the scope of every task of the result's graph: the walk it uses (exec/slicestatus.go iterTasks)
+    follows every dependency of every task to all of the dependency's tasks, without a filter; and Result.Scope merges inside
+    that walk (exec/session.go)."""
+    import re
+    import vlib
+    src = open(wc.repo + "/exec/slicestatus.go").read()
+    try:
+        body = src[src.index("func iterTasks("):]
+        body = body[:body.index("\n}\n")]
+    except ValueError:
+        body = ""
+    m = re.search(r"for _, d := range t\.Deps \{\s*for i := 0; i < d\.NumTask\(\); i\+\+ \{\s*if err := walk\(\[\]\*Task\{d\.Task\(i\)\}\); err != nil \{", body)
+    every_dep = m is not None
+    applies_f = re.search(r"if err := f\(t\); err != nil \{", body) is not None
+    sess = open(wc.repo + "/exec/session.go").read()
+    scope = re.search(r"func \(r \*Result\) Scope\(\) \*metrics\.Scope \{\s*r\.initScope\.Do\(func\(\) \{\s*_ = iterTasks\(r\.tasks, func\(task \*Task\) error \{\s*r\.scope\.Merge\(&task\.Scope\)", sess) is not None
+    gen = "def walkFollowsEveryDepG : Bool := %s\ndef walkAppliesToEveryTaskG : Bool := %s\ndef scopeMergesInWalkG : Bool := %s" % tuple(
+        "true" if b else "false" for b in (every_dep, applies_f, scope))
+    ties = [("result_scope_walk_tie",
+             "theorem result_scope_walk_tie : walkFollowsEveryDepG = true ∧ walkAppliesToEveryTaskG = true ∧ scopeMergesInWalkG = true := by decide",
+             "exec/slicestatus.go iterTasks, exec/session.go (*Result).Scope: the task list that BS.Metrics.result_scope_is_sum sums over is the whole graph")]
+    vlib.t2_check(chk, wc, "C20", ["BS.Model.Metrics"], gen, ties)
